@@ -117,7 +117,7 @@ fn gen_task(ch: &mut Choices, depth: usize, budget: &mut usize, allow_panic: boo
     TaskSpec { steps, ret }
 }
 
-fn gen_case(ch: &mut Choices) -> Case {
+pub fn gen_case(ch: &mut Choices) -> Case {
     let mut budget = 11;
     let allow_panic = ch.chance(1, 3);
     Case { root: gen_task(ch, 0, &mut budget, allow_panic), ext_cancel_at: ch.pick(&[0u8, 1, 5, 10, 30, 60, 60, 60]) }
@@ -357,7 +357,7 @@ fn judge(log: &[Ev], top: Out) -> Result<(), String> {
     Ok(())
 }
 
-fn check(case: &Case, st: &mut Stats) -> Result<(), String> {
+pub fn check(case: &Case, st: &mut Stats) -> Result<(), String> {
     // the scope implementation contains unsafe code (lifetime erasure): if it ever returned while tasks
     // still run, the process may die; the case being executed is kept for the crash handler
     common::crashdump::set_current(&serde_json::to_vec(&serde_json::json!({"property": "C17", "part": "scopes", "reason": "the process died (SIGSEGV/SIGABRT) while executing this case", "case": case})).unwrap());
